@@ -131,7 +131,9 @@ class BatchOracle:
     u_t ~ N(0, diag(su)), w_t ~ N(0, diag(sw)).  eps = (xi_0 - mu0, u_1..u_T, w_1..w_T).
     """
 
-    def __init__(self, T, P, K, Z, H, D, su, sw, nper, unit_roots=0):
+    def __init__(self, T, P, K, Z, H, D, su, sw, nper, unit_roots=0, su_t=None, sw_t=None):
+        """su_t / sw_t: optional per-period stds, arrays (nu, nper) / (nw, nper) (time-varying stds supplied as data); the unconditional
+        initial distribution is built from the model's own stds su, as irispie does"""
         import scipy.linalg as sla
         T, P, K, Z, H, D = (np.array(x, dtype=float) for x in (T, P, K, Z, H, D))
         self.n, self.nu, self.nw, self.ny, self.nper = T.shape[0], P.shape[1], H.shape[1], Z.shape[0], nper
@@ -169,9 +171,9 @@ class BatchOracle:
         Var[:n, :n] = self.S0
         for t in range(nper):
             a = n + t * nu
-            Var[a:a + nu, a:a + nu] = Su
+            Var[a:a + nu, a:a + nu] = Su if su_t is None else np.diag(np.asarray(su_t, dtype=float)[:, t] ** 2)
             b = n + nper * nu + t * nw
-            Var[b:b + nw, b:b + nw] = Sw
+            Var[b:b + nw, b:b + nw] = Sw if sw_t is None else np.diag(np.asarray(sw_t, dtype=float)[:, t] ** 2)
         self.Var = Var
         A = np.zeros((n, ne)); A[:, :n] = np.eye(n)
         mu = self.mu0.copy()
